@@ -259,7 +259,15 @@ func (fx *FX) execUnOp(st *State, x *ssa.UnOp) {
 		p := fx.val(x.X).(VPtr)
 		fx.nilCheck(st, p.Ref, x.Pos(), "load")
 		fx.readCheck(st, p.Ref, x.Pos(), "load")
-		fx.vals[x] = fx.load(st, p, x.Type(), x.Name())
+		if _, isG := rootOf(x.X).(*ssa.Global); isG && fx.fn.Name() != "init" {
+			// package-level objects are never written outside init (own:global-write is an obligation of
+			// every store), so their contents can be read from the entry heap
+			s0 := st.clone()
+			s0.H, s0.Hs = fx.entry.H, fx.entry.Hs
+			fx.vals[x] = fx.load(s0, p, x.Type(), x.Name())
+		} else {
+			fx.vals[x] = fx.load(st, p, x.Type(), x.Name())
+		}
 		if g, ok := x.X.(*ssa.Global); ok {
 			if o := fx.u.globalObj(g); len(o.slots) == 1 {
 				if cr, ok := o.slots[0].(cref); ok && cr.obj != nil {
